@@ -44,6 +44,9 @@ def grid(tier):
         pts.append(["sizes", n, 0, "variables", "bc"])
         pts.append(["sizes", n, 0, "slots", "bc"])
         pts.append(["sizes", n, 0, "parameters", "bc"])
+    for n in (65535, 65536, 65537, 65540):
+        for dim in ("slots1", "parameters1", "domains-explicit-decision", "views"):
+            pts.append(["sizes", n, 0, dim, "bc"])
     seen, out = set(), []
     for p in pts:
         if tuple(p) not in seen:
@@ -102,6 +105,9 @@ def run_batches(pts, mode, nproc=16):
             res[tuple(pt)] = r
         return res
 
+    if mode == "interpreted":
+        # 65535 one-slot propagators take minutes under interpretation; that in-capacity point is covered by the two compiled modes
+        pts = [p for p in pts if not (p[0] == "sizes" and p[3] in ("slots1", "parameters1") and p[1] <= 65535)]
     heavy = [p for p in pts if p[1] > 100]
     light = [p for p in pts if p[1] <= 100]
     batches = [[p] for p in heavy] + chunks(light, 8)
@@ -139,9 +145,10 @@ def run(tier, seed):
     for mode in ("interpreted", "compiled", "boundscheck"):
         res = run_batches(pts, mode)
         for pt in pts:
-            judge(acc, pt, mode, res[tuple(pt)])
+            if tuple(pt) in res:  # (two heavy in-capacity points are not run under interpretation, see run_batches)
+                judge(acc, pt, mode, res[tuple(pt)])
         acc.sample({"mode": mode, "point": pts[len(pts) // 3], "result": res[tuple(pts[len(pts) // 3])]}, cap=3)
-    n = len(pts) * 3
+    n = acc.c["points_interpreted"] + acc.c["points_compiled"] + acc.c["points_boundscheck"]
     cov = {
         "evaluations": n,
         "distinct_nontrivial": acc.c["nt_points_beyond_capacity"],
@@ -152,7 +159,7 @@ def run(tier, seed):
         "states": n, "transitions": n, "traces_validated_against_impl": n,
         "grid_points": len(pts), "refusals_observed": acc.c["nt_refusals"], "exhaustive": True,
         "bounds": f"tier={tier}: heights {{1,2,3,4,5,8,16,{'32,128,' if tier == 'thorough' else ''}255,256}} x depths h-3..h+2, heights "
-                  "{0,257,300,512,1000}; 255/256/257 propagators; 65535/65536/65537 variables, propagator-variable slots, parameters",
+                  "{0,257,300,512,1000}; 255/256/257 propagators; 65535/65536/65537 variables, propagator-variable slots, parameters; 65535..65540 slots / parameters made of arity-1 / one-parameter propagators, shared domains with explicit decision domains, views",
     }
     return finish(PROP, tier, seed, "exploration", acc, cov,
                   ["a finite grid is enumerated completely; nothing is claimed beyond it",
